@@ -528,8 +528,11 @@ def parse_datetime_marker(marker: str, dt: datetime.datetime, lang: Optional[str
         else:
             value = 'AD'
     elif component == 'd':
-        delta = dt - type(dt)(dt.year, 1, 1)
-        value = str(1 + delta.seconds // 86400)
+        if 1 <= dt.year <= 9999:
+            year = dt.year
+        else:
+            year = 4 if calendar.isleap(dt.year) else 6  # a year with the same length
+        value = str(datetime.date(year, dt.month, dt.day).timetuple().tm_yday)
     else:
         msg_tmpl = 'Invalid formatting component {!r}'
         raise xpath_error('FOFD1340', msg_tmpl.format(component))
